@@ -432,3 +432,7 @@ package parser
 //@   props C04 C10
 //@   safety C04 C10
 //@   nothrow
+
+// Package-level state is written only by the package initialisers: nothing is shared
+// mutably between runtimes through globals (C20).
+//@ globals_readonly[C20]
